@@ -4,6 +4,7 @@ import (
 	"bytes"
 	"crypto/ed25519"
 	"fmt"
+	"strings"
 	"testing"
 
 	"golang.org/x/crypto/nacl/auth"
@@ -361,6 +362,22 @@ func c10Sign(c *ev.Collector, rt *rapid.T, msg []byte) (string, error) {
 	if err != nil || *gpriv != priv || *gpub != pub {
 		return "", fmt.Errorf("sign.GenerateKey(rand=%x) = (%x, %x, %v), want seed||pk = %x", seed, gpub, gpriv, err, priv)
 	}
+	// inconsistent key material: the stored public half is not the seed's public key
+	keyClass := "key=consistent"
+	if rapid.IntRange(0, 2).Draw(rt, "inconsistentKey") == 0 {
+		half, cl := c10DrawSignHalf(rt, seed)
+		keyClass = cl
+		differs, err := c10SignKeyMaterial(seed, half, msg)
+		if err != nil {
+			if strings.HasPrefix(err.Error(), "harness:") {
+				harnessTrouble(c, rt, "%v", err)
+			}
+			return cl, err
+		}
+		if differs {
+			c.Class("sign.Open: libsodium and crypto/ed25519 differ on this public key (counted, not asserted)")
+		}
+	}
 	want := append(ed25519.Sign(std, msg), msg...) // crypto_sign: signature || message
 	if clibnacl.Available {
 		var s32 [32]byte
@@ -408,7 +425,7 @@ func c10Sign(c *ev.Collector, rt *rapid.T, msg []byte) (string, error) {
 	if o, ok := sign.Open(nil, want[:short], &pub); ok || o != nil {
 		return pc, fmt.Errorf("sign.Open accepted a %d-byte input", short)
 	}
-	return pc + "|" + pc2, nil
+	return keyClass + "|" + pc + "|" + pc2, nil
 }
 
 func c10Auth(c *ev.Collector, rt *rapid.T, msg []byte) (string, error) {
@@ -480,6 +497,10 @@ func TestC10(t *testing.T) {
 		switch fn {
 		case "secretbox":
 			sub, err = c10Secretbox(c, rt, msg)
+			if err == nil {
+				err = c10Equivalences(rt, msg)
+				c.Class("equiv:secretbox==box.AfterPrecomputation")
+			}
 		case "box":
 			sub, err = c10Box(c, rt, msg)
 		case "anonymous":
@@ -630,6 +651,8 @@ func TestC10(t *testing.T) {
 		ran++
 	}
 	c.Exhaustive(fmt.Sprintf("every message length 0..%d x {secretbox, box, sealed box, sign, auth} with fixed keys", maxLen), maxLen+1)
+
+	c10SignKeyTable(c, t)
 
 	c10LongLengths(c, t)
 
